@@ -123,6 +123,9 @@ func (c c05Case) runFile(viol func(sig, detail string), r *core.Run) {
 	}
 	lb, ok := n.(datamodel.LargeBytesNode)
 	if !ok {
+		if len(tree.Children) > 0 {
+			viol("multi-block-file-not-reified-as-file", fmt.Sprintf("%s: the root has %d links and valid UnixFS file data, reification returned %T (kind %s)", c, len(tree.Children), n, n.Kind()))
+		}
 		return // raw single block root reified as plain bytes: nothing lazy to check
 	}
 	if r != nil {
@@ -213,8 +216,28 @@ func (c c05Case) runFile(viol func(sig, detail string), r *core.Run) {
 		}
 	}
 	ssb := sb.NewSelectorSpecBuilder(basicnode.Prototype.Any)
+	// every range of short files; for longer ones every range between the
+	// points that matter: 0, L and each block boundary with its neighbours
+	isPoint := func(int64) bool { return true }
+	if L > 64 && c.Kind == "hand" {
+		pts := map[int64]bool{0: true, 1: true, L - 1: true, L: true}
+		for _, nd := range tree.Nodes() {
+			for _, p := range []int64{nd.Start - 1, nd.Start, nd.Start + 1, nd.End - 1, nd.End, nd.End + 1} {
+				if p >= 0 && p <= L {
+					pts[p] = true
+				}
+			}
+		}
+		isPoint = func(p int64) bool { return pts[p] }
+	}
 	for a := int64(0); a < L; a++ {
+		if !isPoint(a) {
+			continue
+		}
 		for b := a + 1; b <= L; b++ {
+			if !isPoint(b) {
+				continue
+			}
 			// (a) Seek from start + ReadFull
 			rs, _ := lb.AsLargeBytes()
 			s.ResetLogs()
